@@ -201,6 +201,7 @@ func (st *pathState) spawn(fr *frame, instr *ssa.Go, fn value, args []value) {
 	}
 	g := &gor{id: len(st.gors), name: name, wake: make(chan struct{}, 1)}
 	st.gors = append(st.gors, g)
+	st.raceFork(fr.g.id, g.id)
 	st.ready(g)
 	i := fr.i
 	pos := instr.Pos()
@@ -391,6 +392,7 @@ func chanSend(fr *frame, c *schan, v value) {
 		st.endPath(OutDeadlock, "goroutine woke from nil-channel send")
 	}
 	st.noteUse(c, g, true)
+	st.raceRelease(g, c)
 	if st.trySend(fr, c, v) {
 		st.visible(g)
 		return
@@ -413,12 +415,14 @@ func chanRecv(fr *frame, c *schan) (value, bool) {
 	}
 	st.noteUse(c, g, false)
 	if v, ok, done := st.tryRecv(c); done {
+		st.raceAcquire(g, c)
 		st.visible(g)
 		return v, ok
 	}
 	sel := &selState{}
 	c.recvq = append(c.recvq, &waiter{g: g, sel: sel})
 	st.block(g, fmt.Sprintf("receive from chan#%d", c.id))
+	st.raceAcquire(g, c)
 	st.visible(g)
 	return sel.val, sel.ok
 }
@@ -432,6 +436,7 @@ func chanClose(fr *frame, c *schan) {
 		fr.i.rtPanic("close of closed channel")
 	}
 	c.closed = true
+	st.raceRelease(fr.g, c)
 	for {
 		w := c.firstRecv()
 		if w == nil {
@@ -466,6 +471,9 @@ func doSelect(fr *frame, instr *ssa.Select) value {
 		cases[k] = cs{c: c, send: s.Dir == types.SendOnly}
 		if s.Send != nil {
 			cases[k].v = fr.get(s.Send)
+			if c != nil {
+				st.raceRelease(g, c)
+			}
 		}
 		if c == nil {
 			continue
@@ -527,6 +535,9 @@ func doSelect(fr *frame, instr *ssa.Select) value {
 		}
 		rv, rok = sel.val, sel.ok
 	}
+	if st.race != nil && chosen >= 0 && !cases[chosen].send {
+		st.raceAcquire(g, cases[chosen].c)
+	}
 	r := tuple{chosen, rok}
 	for k, s := range instr.States {
 		if s.Dir == types.RecvOnly {
@@ -585,11 +596,13 @@ func (st *pathState) mutexLock(fr *frame, p *value, read bool) {
 		m.waiters = append(m.waiters, fr.g)
 		st.block(fr.g, "mutex lock")
 	}
+	st.raceAcquire(fr.g, p)
 	st.visible(fr.g)
 }
 
 func (st *pathState) mutexUnlock(fr *frame, p *value, read bool) {
 	m := st.mutex(p)
+	st.raceRelease(fr.g, p)
 	if read {
 		if m.readers == 0 {
 			panic(targetPanic{v: iface{t: fr.i.runtimeErrorString, v: "sync: RUnlock of unlocked RWMutex"}, rt: true})
@@ -616,6 +629,9 @@ func (st *pathState) wgAdd(fr *frame, p *value, d int) {
 		w = &wgState{}
 		st.wgs[p] = w
 	}
+	if d < 0 {
+		st.raceRelease(fr.g, p)
+	}
 	w.n += d
 	if w.n < 0 {
 		panic(targetPanic{v: iface{t: fr.i.runtimeErrorString, v: "sync: negative WaitGroup counter"}, rt: true})
@@ -635,6 +651,7 @@ func (st *pathState) wgWait(fr *frame, p *value) {
 		w.waiters = append(w.waiters, fr.g)
 		st.block(fr.g, "WaitGroup.Wait")
 	}
+	st.raceAcquire(fr.g, p)
 	st.visible(fr.g)
 }
 
